@@ -55,6 +55,9 @@ def streams(tier, rng, P, only=None, cases=None):
             cs.append(dict(req="run " + hx(src), src=src, show=src, key="src%d" % i, expect_tb=tb))
         for j, src in enumerate(mml.sample_sources()):
             cs.append(dict(req="run " + hx(src), src=src, show=src[:200], key="sample%d" % j, expect_tb=None))
+        # track numbers at and beyond what the header's 16-bit count can say (the count must still equal the number of chunks)
+        for j, src in enumerate(["TR=65535 c", "TR(65534) c TR=70000 d", "TR=65536 c TR(3) d"] + (["Track(100000) c", "TR=65534 c", "TR(131071) c"] if big else [])):
+            cs.append(dict(req="run " + hx(src), src=src, show=src, key="bigtr%d" % j, expect_tb=96))
         return cs
     def src_model(c, status, f):
         if status != "ok": return []
